@@ -44,7 +44,7 @@ def describe(tier):
         "{0..E-1}, EVERY common value in 0..E per dimension (E = absent from the data), explicit shape (E+1 per dim) and inferred shape; count() "
         "read through the NaN format and the (0, False) format. Plus boundary extents %r on one dimension (alone and crossed with a small one) "
         "and the zero-dimension cube with N=0..3; plus a %d-row family where one dimension holds a run of L in %r rows (every start) and the other one or two rows "
-        "(every single row, every pair of run-edge rows), both orders and a third alternating dimension (a quarter of them also with every stored row-id array as a non-contiguous view); a two-axis dimension of %r columns crossed with a flat one. Oracle: loop over rows incrementing a table; missing iff zero. Non-trivial: >=2 dimensions or "
+        "(every single row, every pair of run-edge rows), both orders and a third alternating dimension (a quarter of them also with every stored row-id array as a non-contiguous view); a two-axis dimension of %r columns crossed with a flat one; hand-built indexes of 2^24+1 .. 2^32 rows (1-3 dimensions, a handful of listed rows incl. the last). Oracle: loop over rows incrementing a table; missing iff zero. Non-trivial: >=2 dimensions or "
         "an extra axis, and at least one dimension whose common cell is reconstructed non-empty while another value is present. "
         "Distinct = distinct (config, data, commons)." % (BOUNDARY, LONG_N, LONG_RUNS, WIDE_COLS[tier]),
         "bounds": {"configs": [(n, [list(e) for e in ex], E) for n, ex, E in cfg]},
@@ -79,6 +79,7 @@ def blocks(tier):
         out.append(("long", {"L": L}))
     for C in WIDE_COLS[tier]:
         out.append(("widecols", {"C": C}))
+    out.append(("hugeN", {}))
     for X in BOUNDARY:
         for N in (1, 2, 3):
             for i in range(3 ** N):
@@ -160,6 +161,52 @@ def check_cube(denses, commons, E_shape, acc, case, layout=None):
                 denses_now = nd
 
 
+# Row counts beyond single precision and beyond 2^31 / 2^32 (an index only stores its uncommon rows, so they cost nothing): the count of the
+# common cells, obtained by differencing, must be exact
+HUGE_N = [2 ** 24 + 1, 2 ** 24 + 3, 2 ** 25 + 1, 2 ** 31 + 7, 2 ** 32 - 1, 2 ** 32]
+
+
+def check_huge(acc, only=None):
+    from catii.ccubes import ccube
+    from catii.iindexes import iindex
+
+    for N in HUGE_N:
+        top = N - 1
+        layouts = [
+            ([{1: [0, 5, top]}], "one dimension"),
+            ([{1: [0, 5, top], 2: [7]}, {1: [5, 6], 2: [top]}], "two dimensions"),
+            ([{1: [0], 2: [1, top - 1]}, {2: [1]}, {1: [0, top - 1], 2: [3]}], "three dimensions"),
+        ]
+        for ents, label in layouts:
+            case = {"hugeN": str(N), "layout": label}
+            if only is not None and only != case:
+                continue
+            D = len(ents)
+            shape = (3,) * D
+            table = numpy.zeros(shape, dtype=object)
+            listed = sorted(set(r for e in ents for rows in e.values() for r in rows))
+            for r in listed:
+                coord = tuple(next((v for v, rows in e.items() if r in rows), 0) for e in ents)
+                table[coord] += 1
+            table[(0,) * D] += N - len(listed)
+            try:
+                dims = [iindex({(v,): numpy.array(rows, dtype=numpy.uint32) for v, rows in e.items()}, 0, (N,)) for e in ents]
+                r1 = ccube(dims, interacting_shape=shape).count()
+                r2 = ccube(dims, interacting_shape=shape).count(return_missing_as=(0, False))
+            except Exception as e:  # noqa
+                acc.violation("count-huge:raised", case, repr(e))
+                continue
+            want = numpy.array(table.tolist(), dtype=numpy.float64)
+            miss = want == 0
+            g1 = numpy.asarray(r1, dtype=numpy.float64)
+            g2 = numpy.asarray(r2[0], dtype=numpy.float64)
+            if not numpy.array_equal(numpy.isnan(g1), miss) or not numpy.array_equal(g1[~miss], want[~miss]):
+                acc.violation("count-huge:values", case, "NaN format: %r, expected %r" % (g1.tolist(), table.tolist()))
+            elif not numpy.array_equal(~numpy.asarray(r2[1]).astype(bool), miss) or not numpy.array_equal(g2[~miss], want[~miss]):
+                acc.violation("count-huge:values", case, "pair format: %r, expected %r" % (g2.tolist(), table.tolist()))
+            acc.case(("huge", N, label), nontrivial=D >= 2, outcome=("huge", N >= 2 ** 31), sample=case)
+
+
 def nontrivial(denses, commons):
     if len(denses) < 2 and denses[0].ndim < 2:
         return False
@@ -184,6 +231,9 @@ def run_block(family, p, acc):
             except Exception as e:  # noqa
                 acc.violation("count0:raised", case, repr(e))
             acc.case(("zero", N), nontrivial=False, outcome=("zero", N), sample=case)
+        return
+    if family == "hugeN":
+        check_huge(acc)
         return
     if family == "widecols":
         # one dimension with C columns (C sub-cubes) crossed with a flat one: block-wise processing of the sub-cube axis
@@ -258,7 +308,9 @@ def replay(case, site=None):
     from catii.ccubes import ccube
 
     acc = Acc(ID, [], stop_at_first=False)
-    if case.get("widecols"):
+    if case.get("hugeN"):
+        check_huge(acc, only={"hugeN": case["hugeN"], "layout": case["layout"]})
+    elif case.get("widecols"):
         C, N = case["widecols"], 3
         r = numpy.arange(N)[:, None]
         c = numpy.arange(C)[None, :]
